@@ -54,7 +54,7 @@ static CO_ERR UtUserWrite(CO_OBJ *o, CO_NODE *n, void *b, uint32_t s)
     *(uint32_t *)o->Data = *(uint32_t *)b; return CO_ERR_NONE;
 }
 /* a parameter group over the 32-bit variable 2002h whose NVM image differs from RAM (changed and not saved): reading 1010h must not load it */
-static CO_PARA SdoPara; static uint32_t SdoParaDflt = 0x0D0E0F00u;
+static CO_PARA SdoPara, SdoPara2; static uint32_t SdoParaDflt = 0x0D0E0F00u;      /* second group: reset type node, over 2001h */
 static const CO_OBJ_TYPE UtRange = { UtSize, 0, UtRead, UtRangeWrite, 0 };
 static const CO_OBJ_TYPE UtUser  = { UtSize, 0, UtRead, UtUserWrite, 0 };
 
@@ -107,9 +107,11 @@ static void sdo_world_build(uint32_t nmt_operational)
     od_add(&b, CO_KEY(0x1201, 2, CO_OBJ_D___R_), CO_TUNSIGNED32, (CO_DATA)0x5C1);
 #endif
     SdoPara.Offset = 0x60; SdoPara.Size = 4; SdoPara.Start = (uint8_t *)&V32; SdoPara.Default = (uint8_t *)&SdoParaDflt; SdoPara.Type = CO_RESET_COM; SdoPara.Ident = (void *)"v32"; SdoPara.Value = CO_PARA___E;
-    od_add(&b, CO_KEY(0x1010, 0, CO_OBJ_D___R_), CO_TPARA_STORE, (CO_DATA)1);
+    SdoPara2.Offset = 0x68; SdoPara2.Size = 2; SdoPara2.Start = (uint8_t *)&V16; SdoPara2.Default = (uint8_t *)&SdoParaDflt; SdoPara2.Type = CO_RESET_NODE; SdoPara2.Ident = (void *)"v16"; SdoPara2.Value = CO_PARA___E;
+    od_add(&b, CO_KEY(0x1010, 0, CO_OBJ_D___R_), CO_TPARA_STORE, (CO_DATA)2);
     od_add(&b, CO_KEY(0x1010, 1, CO_OBJ_____RW), CO_TPARA_STORE, (CO_DATA)&SdoPara);
-    memcpy(&DRV.nvm[0x60], &V32, 4);                                  /* the image the node starts from */
+    od_add(&b, CO_KEY(0x1010, 2, CO_OBJ_____RW), CO_TPARA_STORE, (CO_DATA)&SdoPara2);
+    memcpy(&DRV.nvm[0x60], &V32, 4); memcpy(&DRV.nvm[0x68], &V16, 2);  /* the image the node starts from */
     od_add(&b, CO_KEY(0x2000, 0, CO_OBJ_____RW), CO_TUNSIGNED8,  (CO_DATA)&V8);
     od_add(&b, CO_KEY(0x2001, 0, CO_OBJ_____RW), CO_TUNSIGNED16, (CO_DATA)&V16);
     od_add(&b, CO_KEY(0x2002, 0, CO_OBJ_____RW), CO_TUNSIGNED32, (CO_DATA)&V32);
@@ -159,8 +161,8 @@ static void sdo_world_build(uint32_t nmt_operational)
     CONodeStart(&Node);
     if (nmt_operational) CONmtSetMode(&Node.Nmt, CO_OPERATIONAL);
     (void)CONodeGetErr(&Node);
-    { uint32_t other = 0xDEADBEEFu; memcpy(&DRV.nvm[0x60], &other, 4); }   /* NVM and RAM differ from now on */
-    W_REG(SdoPara);
+    { uint32_t other = 0xDEADBEEFu; memcpy(&DRV.nvm[0x60], &other, 4); memcpy(&DRV.nvm[0x68], &other, 2); }   /* NVM and RAM differ from now on */
+    W_REG(SdoPara); W_REG(SdoPara2);
     memset(MV, 0, sizeof MV);
     for (i = 0; i < O_N; i++) impl_value(i, MV[i]);
     memcpy(MV0, MV, sizeof MV0);
